@@ -7,7 +7,6 @@
 package mixed
 
 import (
-	"time"
 	"bytes"
 	"encoding/binary"
 	"encoding/json"
@@ -15,6 +14,7 @@ import (
 	"math/rand"
 	"sort"
 	"strings"
+	"time"
 
 	"verif/harness/internal/drv"
 	"verif/harness/internal/dvc"
@@ -147,7 +147,7 @@ type World struct {
 	SnapTypes  map[string]bool // when set, snapshots only read these types (kv lm ann nj roi img)
 	admin      bool
 	adminEvery int
-	restricted bool // Opts.Types named a subset of the data types
+	restricted bool            // Opts.Types named a subset of the data types
 	Side       map[string]bool // root uuids of side repos created by admin steps and not yet deleted
 	sideOrder  []string
 	tag        string
